@@ -567,11 +567,18 @@ class LoadMixin(AbstractLoaderGenerator, BaseLoadHook):
         fn_gen = extras['fn_gen']
 
         fields = f'fields_{tp.field_i}'
+        tp_fields = f'tp_{fields}'
+        o = tp.v()
 
         _locals = extras['locals']
         _locals[fields] = frozenset(tp.args)
+        # Two Literal values are equivalent only if both their types and
+        # values are equal, so check against `(type, value)` pairs; else
+        # `True` and `1.0` are in `Literal[1]`, as `True == 1.0 == 1`. See
+        #   https://www.python.org/dev/peps/pep-0586/#equivalence-of-two-literals
+        _locals[tp_fields] = frozenset((type(a), a) for a in tp.args)
 
-        with fn_gen.if_(f'{tp.v()} in {fields}', comment=repr(tp.args)):
+        with fn_gen.if_(f'(type({o}), {o}) in {tp_fields}', comment=repr(tp.args)):
             fn_gen.add_line('return v1')
 
         # No such Literal with the value of `o`
